@@ -176,7 +176,13 @@ func (s *Server) serve(ctx context.Context) {
 			}
 		} else {
 			tempDelay = 0
-			go s.startSession(sessionID, conn, log.Logger)
+			// Count the session before its goroutine starts, otherwise Drain can return
+			// while an accepted connection has not yet registered itself.
+			s.wg.Add(1)
+			go func(id int, conn net.Conn) {
+				defer s.wg.Done()
+				s.startSession(id, conn, log.Logger)
+			}(sessionID, conn)
 		}
 	}
 }
